@@ -260,3 +260,30 @@ c('NaiveDateWeeksIterator::Iterator__next', U, requires="dwf(old(self).value)", 
 c('NaiveDateWeeksIterator::DoubleEndedIterator__next_back', U, requires="dwf(old(self).value)", ensures=it_step(7, '-'))
 c('NaiveDateWeeksIterator::Iterator__size_hint', U, requires="dwf(self.value)",
   ensures="r.0 as int == (DN_MAX() - dn(self.value)) / 7, r.1 == Some(r.0)")
+
+# ------------------------------------------------------------------------------------------------
+# C17  rounding (src/round.rs, generic functions monomorphised at T := NaiveDateTime) -- Verus (units/round.py)
+U = 'verus:round'
+c('NaiveDateTime::Timelike__nanosecond', 'verus:round', ensures="r == self.time.frac")
+def rounding(kind):
+    target = {'trunc': "floor_mult(s, p)", 'up': "ceil_mult(s, p)",
+              'round': "(if ceil_mult(s, p) - s <= s - floor_mult(s, p) { ceil_mult(s, p) } else { floor_mult(s, p) })"}[kind]
+    return ("({ let s = stamp(naive); let p = td_ns(duration);"
+            " ((p <= 0 || p > i64::MAX) ==> r == Err::<NaiveDateTime, RoundingError>(RoundingError::DurationExceedsLimit))"
+            " && ((0 < p <= i64::MAX && !(i64::MIN <= s <= i64::MAX)) ==> r == Err::<NaiveDateTime, RoundingError>(RoundingError::TimestampExceedsLimit))"
+            " && ((0 < p <= i64::MAX && i64::MIN <= s <= i64::MAX) ==> r is Ok)"
+            " && ((r is Ok && nonleap(naive.time)) ==> dtwf(r->Ok_0) && nonleap((r->Ok_0).time) && stamp(r->Ok_0) == %s) })") % target
+RREQ = "dtwf(naive), original == naive, td_inv(duration)"
+c('duration_trunc', U, requires=RREQ, ensures=rounding('trunc'))
+c('duration_round_up', U, requires=RREQ, ensures=rounding('up'))
+c('duration_round', U, requires=RREQ, ensures=rounding('round'))
+c('NaiveDateTime::DurationRound__duration_trunc', U, requires="dtwf(self), td_inv(duration)", ensures=rounding('trunc').replace('naive', 'self'))
+c('NaiveDateTime::DurationRound__duration_round_up', U, requires="dtwf(self), td_inv(duration)", ensures=rounding('up').replace('naive', 'self'))
+c('NaiveDateTime::DurationRound__duration_round', U, requires="dtwf(self), td_inv(duration)", ensures=rounding('round').replace('naive', 'self'))
+c('span_for_digits', U, ensures="r as int == pow10(if digits >= 9 { 0 } else { 9 - digits as int }), 1 <= r <= 1_000_000_000")
+SUBREQ = "dtwf(self), nonleap(self.time), DN_MIN() < dn(self.date) < DN_MAX()"
+c('NaiveDateTime::SubsecRound__trunc_subsecs', U, requires=SUBREQ,
+  ensures="({ let p = pow10(if digits >= 9 { 0 } else { 9 - digits as int }); dtwf(r) && nonleap(r.time) && instant(r) == instant(self) - (self.time.frac as int % p) })")
+c('NaiveDateTime::SubsecRound__round_subsecs', U, requires=SUBREQ,
+  ensures="({ let p = pow10(if digits >= 9 { 0 } else { 9 - digits as int }); let dd = self.time.frac as int % p; dtwf(r) && nonleap(r.time) && "
+          "instant(r) == (if dd == 0 { instant(self) } else if p - dd <= dd { instant(self) + (p - dd) } else { instant(self) - dd }) })")
